@@ -2,6 +2,7 @@ package main
 
 import (
 	"fmt"
+	"strings"
 	"go/token"
 	"go/types"
 	"math/big"
@@ -12,6 +13,16 @@ import (
 // index arithmetic helpers working in either mode (operands of sort Idx)
 
 func (x *Exec) iAdd(a, b Term) Term {
+	// off + (p - off) == p (shifted bound variables, see evalQuant)
+	if b.S == "(- "+a.S+")" {
+		return x.S.IdxLit(0)
+	}
+	if strings.HasSuffix(b.S, " "+a.S+")") && (strings.HasPrefix(b.S, "(- ") || strings.HasPrefix(b.S, "(bvsub ")) {
+		inner := strings.TrimSuffix(strings.TrimPrefix(strings.TrimPrefix(b.S, "(- "), "(bvsub "), " "+a.S+")")
+		if !strings.ContainsAny(inner, " ()") {
+			return Term{inner, a.Sort}
+		}
+	}
 	if x.mode == ModeBV {
 		return Term{app("bvadd", a, b), a.Sort}
 	}
@@ -75,6 +86,11 @@ func (x *Exec) inBounds(i, n Term, t types.Type) Term {
 
 func (x *Exec) elemAddr(sl Term, i Term, elemT types.Type) *Addr {
 	ref, off, _, _ := x.sliceParts(sl)
+	if x.idxUses != nil {
+		if m, ok := x.idxUses[i.S]; ok {
+			m[off.S] = true
+		}
+	}
 	return &Addr{Kind: akElem, Ref: ref, Idx: x.iAdd(off, i), RootT: elemT, T: elemT}
 }
 
@@ -178,7 +194,8 @@ func (x *Exec) sliceOp(fr *Frame, st *State, v *ssa.Slice) {
 		}
 		es := x.S.SortOf(arr.Elem())
 		cur := x.loadPtr(st, base, u.Elem())
-		hn, hs := x.S.ElemHeap(es)
+		_ = es
+		hn, hs := x.S.ElemHeapT(arr.Elem())
 		h := x.heapGet(st, hn, hs)
 		x.heapSet(st, hn, mkStore(h, base.T, cur))
 		x.assumed["array sliced: the array cell is snapshotted into the slice heap (later writes through the array variable are not seen through the slice)"] = true
@@ -211,7 +228,7 @@ func (x *Exec) newSlice(st *State, elemT types.Type, ln, cp Term, zeroed bool) T
 	st.Alloc = ref
 	x.markAlloc()
 	es := x.S.SortOf(elemT)
-	hn, hs := x.S.ElemHeap(es)
+	hn, hs := x.S.ElemHeapT(elemT)
 	h := x.heapGet(st, hn, hs)
 	asrt := arraySort(x.S.Idx(), es)
 	if zeroed {
@@ -234,7 +251,7 @@ func (x *Exec) builtinAppend(fr *Frame, st *State, v *ssa.Call) {
 	elemT := sl.Elem()
 	es := x.S.SortOf(elemT)
 	asrt := arraySort(x.S.Idx(), es)
-	hn, hs := x.S.ElemHeap(es)
+	hn, hs := x.S.ElemHeapT(elemT)
 	var tref, toff, tlen Term
 	var tarr Term
 	if isString(args[1].Type()) {
@@ -298,7 +315,7 @@ func (x *Exec) builtinCopy(fr *Frame, st *State, v *ssa.Call) {
 	sl := args[0].Type().Underlying().(*types.Slice)
 	es := x.S.SortOf(sl.Elem())
 	asrt := arraySort(x.S.Idx(), es)
-	hn, hs := x.S.ElemHeap(es)
+	hn, hs := x.S.ElemHeapT(sl.Elem())
 	h := x.heapGet(st, hn, hs)
 	dref, doff, dlen, _ := x.sliceParts(d)
 	var sarr, soff, slen Term
